@@ -806,6 +806,10 @@ where
             orc.push("wrong-items".into());
         }
     }
+    // an operation that was given exactly what it needs and no fault must not panic
+    if fault == "none" && op != "collect" && (o.res.starts_with("panic") || o.res == "panicked") {
+        orc.push("panicked-without-a-fault".into());
+    }
     orc.sort();
     let ev = canon(raw);
     format!(
